@@ -144,7 +144,7 @@ class ArffDataReader(Filter[Iterable[str], Iterable[Union[Dense,Sparse]]]):
                 missing = True
             else:
                 compact = line.translate(self._trans)
-                missing = compact[:2] == '?,' or ',?,' in compact or compact[-2:] == ',?'
+                missing = compact == '?' or compact[:2] == '?,' or ',?,' in compact or compact[-2:] == ',?'
 
             yield line,missing
 
